@@ -268,6 +268,7 @@ func (e Engine) Run(t *core.Tape, opt core.RunOpt, agg *core.Agg) *core.Violatio
 
 func (e Engine) finish(c *Case, agg *core.Agg) *core.Violation {
 	f, h := Execute(c, agg)
+	agg.SetRunHash(h)
 	if agg != nil {
 		agg.Inc("executions")
 		classify(c, agg, h)
